@@ -276,6 +276,7 @@ class Interp:
         self.noop_roots = {"logger", "doc_logger", "msg_logger", "state_logger", "warnings", "logging"}
         self.noop_calls = {"print", "warn"}
         self.inline_depth = 0
+        self.nyields = 0
         self.call_hooks = {}     # qualname -> contract object used instead of the body
         self.trace_calls = None
 
@@ -974,7 +975,11 @@ class Interp:
             yield from spec.run_while(self, st, fr)
             return
         n = 0
+        ny = self.nyields
         while True:
+            if self.nyields != ny:      # the loop made observable progress (yielded): not a candidate for an invariant
+                ny = self.nyields
+                n = 0
             c = yield from self.ev(st.test, fr)
             if not self.truth(c, f"while@L{st.lineno}"):
                 yield from self.ex_block(st.orelse, fr)
@@ -1668,6 +1673,7 @@ class Interp:
         if e.value is not None:
             v = yield from self.ev(e.value, fr)
         fr.loc = (e.lineno, e.col_offset)
+        self.nyields += 1
         tok = yield ("Y", v)
         return self.token_value(tok)
 
@@ -1695,6 +1701,7 @@ class Interp:
                     x = yield from self.iter_next(g)
                 except _IterStop:
                     return None
+                self.nyields += 1
                 tok = yield (event, x)
                 if tok[0] == "throw":
                     raise PyRaise(tok[1])
@@ -1706,6 +1713,7 @@ class Interp:
         while True:
             if out[0] == "return":
                 return out[1]
+            self.nyields += 1
             if out[0] == "await":
                 tok = yield ("AWAIT", out[1])
             else:
